@@ -33,7 +33,7 @@ from ..engine.report import AnalysisError, Run
 from ..engine.resolver import ClassInfo, FuncInfo, Program, body_walk, find_installed_source, parent_map
 from ..engine.sympath import Path as SymPath, SymExec, sym_paths
 from ..engine.util import u
-from ._c03_util import AgeInterp, Lin, Poison, RoleInterp, SetV, StateRead, is_property, is_static, resolve_local, seg, self_obj, splice
+from ._c03_util import AgeInterp, Lin, Poison, RoleInterp, SetV, StateRead, is_property, is_static, resolve_local, seg, self_obj, splice, unroll_literal_loops
 
 BOUNDS = "microgrid._power_managing._bounds"
 MAT = "microgrid._power_managing._matryoshka"
@@ -474,10 +474,22 @@ class Sweep:
         from_bnd: set[str] = set()
         for i, s in enumerate(self.loop.body):
             uses = [n for n in ast.walk(s) if isinstance(n, ast.Name) and n.id == pvar]
-            if any(id(n) not in attr_bases or not isinstance(n.ctx, ast.Load) for n in uses):
-                return False  # the proposal is passed on as a whole / rebound
             attrs = {n.attr for n in ast.walk(s) if isinstance(n, ast.Attribute)
                      and isinstance(n.value, ast.Name) and n.value.id == pvar}
+            parents = parent_map(s)
+            for n in uses:
+                if not isinstance(n.ctx, ast.Load):
+                    return False  # rebound
+                if id(n) in attr_bases:
+                    continue
+                # the proposal is passed on as a whole: which of its fields does the callee read?
+                par = parents.get(n)
+                got = _callee_attrs(self.prog, self.fn, par, n) if isinstance(par, (ast.Call, ast.keyword)) else None
+                if isinstance(par, ast.keyword):
+                    got = _callee_attrs(self.prog, self.fn, parents.get(par), n, par.arg)
+                if got is None:
+                    return False
+                attrs |= got
             if attrs - {"preferred_power", "bounds"}:
                 return False
             R, W = _loaded(s), _stored(s)
@@ -504,6 +516,54 @@ class Sweep:
         if any(i > first_write and _loaded(s) & guard for i, s in t_part):
             return False
         return True
+
+
+def _resolve_helper(prog: Program, f: FuncInfo, call: ast.Call) -> FuncInfo | None:
+    recv = {f.params[0]} if f.cls is not None and f.params and not is_static(f) else set()
+    if isinstance(call.func, ast.Attribute) and isinstance(call.func.value, ast.Name) and f.cls is not None \
+            and (call.func.value.id in recv or call.func.value.id == f.cls.name):
+        return prog.resolve_method(f.cls, call.func.attr)
+    if isinstance(call.func, ast.Name) and call.func.id.startswith("_"):
+        t = prog.resolve_name(f.module, call.func.id)
+        return t if isinstance(t, FuncInfo) and t.module is f.module else None
+    return None
+
+
+def _callee_attrs(prog: Program, f: FuncInfo, call: Any, arg: ast.AST, kw: str | None = None,
+                  depth: int = 3) -> set[str] | None:
+    """Fields that a private helper reads from the object passed as `arg` (None: not decidable)."""
+    if not isinstance(call, ast.Call) or depth <= 0:
+        return None
+    h = _resolve_helper(prog, f, call)
+    if h is None:
+        return None
+    params = h.params[1:] if h.cls is not None and not is_static(h) else h.params
+    if kw is not None:
+        name = kw if kw in params else None
+    else:
+        idx = next((i for i, a in enumerate(call.args) if a is arg), None)
+        name = params[idx] if idx is not None and idx < len(params) \
+            and not any(isinstance(a, ast.Starred) for a in call.args) else None
+    if name is None:
+        return None
+    out: set[str] = set()
+    parents = parent_map(h.node)
+    for n in body_walk(h.node):
+        if isinstance(n, ast.Name) and n.id == name:
+            par = parents.get(n)
+            if not isinstance(n.ctx, ast.Load):
+                return None
+            if isinstance(par, ast.Attribute) and par.value is n:
+                out.add(par.attr)
+            elif isinstance(par, ast.Call) and any(a is n for a in par.args):
+                sub = _callee_attrs(prog, h, par, n, None, depth - 1)
+                if sub is None:
+                    return None
+                out |= sub
+            else:
+                return None
+    # a local alias of a field (`b = p.bounds`) keeps the field's classification: fields only
+    return out
 
 
 def check_sweep(run: Run, prog: Program, tier: str = "quick") -> None:
@@ -792,8 +852,9 @@ def check_pure(run: Run, prog: Program) -> None:
     # ---- calculate_target_power, per symbolic path
     run.analysed(ct.qual)
     gid, bounds_param = ct.params[1], ct.params[3]
-    bucket_forms = {f"self._component_buckets.get({gid})": ("is", frozenset({f"self._component_buckets.get({gid})", "None"})),
-                    f"self._component_buckets[{gid}]": ("in", gid, "self._component_buckets")}
+    bucket_forms: dict[str, Any] = {f"self._component_buckets[{gid}]": ("in", gid, "self._component_buckets")}
+    for form in (f"self._component_buckets.get({gid})", f"self._component_buckets.get({gid}, None)"):
+        bucket_forms[form] = ("is", frozenset({form, "None"}))
     n_calls = 0
     fresh_texts: set[str] = set()
     for p in paths:
@@ -1126,7 +1187,7 @@ def check_age_actor(run: Run, prog: Program) -> None:
                 and u(n.test.func).split(".")[-1] == "selected_from" and len(n.test.args) == 2
                 and u(n.test.args[0]) == sel and u(n.test.args[1]) in timers & select_args]
         for arm in arms:
-            res = SymExec(256, opaque=None).block(SymPath(), list(arm.body))
+            res = SymExec(256, opaque=None).block(SymPath(), unroll_literal_loops(list(arm.body)))
             per_path = []
             for p, st in res:
                 calls = p.calls(lambda c: isinstance(c.func, ast.Attribute) and c.func.attr == "drop_old_proposals")
@@ -1265,8 +1326,12 @@ def structural_controls(prog: Program) -> list[tuple[str, str, str, str, str]]: 
 
 
 def env_rules(run: Run, prog: Program, tier: str = "quick") -> None:
+    n0 = len(run.violations)
     check_clamp(run, prog)
     check_adjust(run, prog)
+    if len(run.violations) > n0 and tier == "quick":
+        run.note("the sweep is not explored: its building blocks already violate their post-conditions")
+        return
     try:
         check_sweep(run, prog, tier)
         if tier == "thorough":
@@ -1307,10 +1372,10 @@ def check(run: Run, prog: Program, tier: str) -> str:
     check_quantity_truthiness(run)
     run_rules(run, prog, tier)
     run.floor("C03.ENV", 300)
-    run.floor("C03.PURE", 6)
-    run.floor("C03.ORD", 6)
-    run.floor("C03.REPL", 2)
-    run.floor("C03.AGE", 5)
+    run.floor("C03.PURE", 12)
+    run.floor("C03.ORD", 10)
+    run.floor("C03.REPL", 4)
+    run.floor("C03.AGE", 100)
     from ..engine.controls import run_controls
 
     run_controls(run, structural_controls(prog), run_rules, tier, base_prog=prog,
